@@ -146,7 +146,7 @@ func init() {
 	register(&PropDef{
 		ID: "C07",
 		Gen: func(t *rapid.T, tier string) *world.Plan {
-			o := genOpts{maxCrashes: 2, maxFaults: 3, maxNet: 2, maxLN: 1, sched: true, healProb: 70, layouts: true, silence: true, csvBurst: 25,
+			o := genOpts{maxCrashes: 2, maxFaults: 3, maxNet: 2, maxLN: 1, sched: true, healProb: 70, layouts: true, silence: true, csvBurst: 25, realLWallet: 70,
 				sites:      []string{"btc.rpc.height", "lbtc.rpc.height", "lwallet.open", "btcwallet.open", "btcwallet.label", "lwallet.label", "store.update", "net.send", "lwallet.sendraw", "btcwallet.spend", "ln.invoice",
 					"btc.rpc.gettxout", "lbtc.rpc.gettxout", "btc.rpc.getrawtx", "lbtc.rpc.getrawtx", "btc.rpc.blockhash", "lbtc.rpc.blockhash", "electrum.history", "electrum.getrawtx"},
 				faultKinds: []string{"err", "errafter"}, inject: []string{"cancel", "coop"}, maxInject: 1}
@@ -182,6 +182,31 @@ func init() {
 				for i := firstClaim; i < firstClaim+12; i++ {
 					p.LN = append(p.LN, world.LNFault{Idx: i, Kind: "fail"})
 				}
+				return p
+			}
+			if tier != "enum-base" && rapid.IntRange(0, 5).Draw(t, "refund-outage") == 0 {
+				// focused: the taker never pays, the CSV matures, and the maker's wallet daemon is
+				// unreachable (transport-level failures, not JSON-RPC errors) for the first refund
+				// broadcasts; the maker runs its real wallet code where there is one
+				o2 := o
+				o2.csvBurst, o2.silenceAlways, o2.maxCrashes, o2.maxFaults, o2.inject = 100, true, 0, 0, nil
+				o2.adapters, o2.clnAdapters, o2.realLWallet = 80, 80, 100
+				p := genPlan(t, o2)
+				if len(p.Ops) == 0 || len(p.Chain) == 0 {
+					return p
+				}
+				op := p.Ops[0]
+				maker := op.Node
+				if op.Kind == "swapout" {
+					maker = 1 - op.Node
+				}
+				site := "btcwallet.spend"
+				if op.Chain == "lbtc" {
+					site = "lwallet.sendraw"
+				}
+				at := p.Chain[len(p.Chain)-1].AtMs
+				p.Faults = []world.Fault{{Node: maker, Site: site, Kind: "err", FromMs: at - 1000, ToMs: at + pick(t, "rolen", []int{3000, 15000, 40000})}}
+				p.Heal.On = true
 				return p
 			}
 			p := genPlan(t, o)
